@@ -673,6 +673,45 @@ func policyLatestFirst() Policy {
 	}
 }
 
+// slow reader: nothing is delivered to `victim` while anything else can be delivered; its backlog is then handed over latest
+// round first (or newest first), so that later-round messages of everybody are queued at the victim before earlier ones arrive
+func policyStarve(victim party.ID, latestRoundFirst bool) Policy {
+	return func(s *Sim) (int, bool) {
+		for i, e := range s.Flight {
+			if e.To != victim {
+				return i, false
+			}
+		}
+		best := len(s.Flight) - 1
+		if latestRoundFirst {
+			best = 0
+			for i, e := range s.Flight {
+				b := s.Flight[best]
+				if e.Msg.RoundNumber > b.Msg.RoundNumber || (e.Msg.RoundNumber == b.Msg.RoundNumber && e.Msg.Broadcast && !b.Msg.Broadcast) {
+					best = i
+				}
+			}
+		}
+		return best, false
+	}
+}
+
+// early arrival: the round-k broadcast (or p2p message) of `from` to `victim` is held back until nothing else can be delivered,
+// so that the victim sits in round k with every later message of everybody already queued
+func policyHoldOne(victim, from party.ID, round int, bcast bool) Policy {
+	return func(s *Sim) (int, bool) {
+		held := -1
+		for i, e := range s.Flight {
+			if e.To == victim && e.Msg.From == from && int(e.Msg.RoundNumber) == round && e.Msg.Broadcast == bcast {
+				held = i
+				continue
+			}
+			return i, false
+		}
+		return held, false
+	}
+}
+
 func policyLIFO() Policy {
 	return func(s *Sim) (int, bool) { return len(s.Flight) - 1, false }
 }
